@@ -224,9 +224,6 @@ func famSeq(quick bool) []*prog.Case { return seqFrom(seqOps(), quick) }
 // the compiler knows about values (index variable, branches, loops, closures, references).
 func SeqBases(quick bool) []*prog.Case {
 	ops := seqOps()
-	if !quick {
-		return seqFrom(ops, true)
-	}
 	sens := map[string]bool{"a[j]=x": true, "y=a[j]": true, "j=2": true, "y=-j": true, "x+=j*2": true, "a[-j]=y": true, "if-swap": true, "while": true,
 		"match-x": true, "closure": true, "ref-local": true, "y=get(&x)": true, "for-range": true, "catch": true}
 	var out []*prog.Case
@@ -236,7 +233,9 @@ func SeqBases(quick bool) []*prog.Case {
 	core := map[string]bool{"a[j]=x": true, "y=a[j]": true, "j=2": true, "y=-j": true, "a[-j]=y": true, "if-swap": true}
 	for i := range ops {
 		for j := range ops {
-			if sens[ops[i].id] && sens[ops[j].id] && (core[ops[i].id] || core[ops[j].id]) && (core[ops[i].id] && core[ops[j].id]) {
+			// quick: both operations from the core (index variable, branch); thorough: both
+			// from the sensitive set
+			if sens[ops[i].id] && sens[ops[j].id] && (!quick || (core[ops[i].id] && core[ops[j].id])) {
 				out = append(out, seqCase(ops, []int{i, j}))
 			}
 		}
